@@ -309,11 +309,42 @@ def P6_conservation(rep, flow: Flow, fqs, tables=None):
                         bad = True
                     elif leaf[0] == "unknown":
                         raise AnalysisError(f"{where}: unmodelled term part {leaf[1]}")
+                if len(insts) == 0 and not bad and _guarded_by_class_zero(flow, fq, r):
+                    # a path without any table circuit delivers cost 0: right exactly when the class is the
+                    # product class, whose table cost is 0 in every advertised file (checked here on the data)
+                    nonzero = [tf.name for tf in (tables.adv_stab if tables is not None else []) if tf.lines and tf.lines[0].cost not in (0, None)]
+                    if tables is None or nonzero:
+                        rep.finding("P6", f"{fq}:no-table:class0-cost", f"{where}: the class-0 fast path delivers no two-qubit gate but the tables list cost > 0 for class 0 in {nonzero}")
+                        bad = True
+                    else:
+                        rep.ok("P6", 1, nontrivial=(fq, pi, "class0"), sample=f"{f.qualname} path #{pi}: guarded by class id == 0, no two-qubit gate, table cost of class 0 is 0 everywhere")
+                        continue
                 if len(insts) != 1:
-                    rep.finding("P6", f"{fq}:tables:{len(insts)}", f"{where}: the result combines {len(insts)} table-line parses, exactly 1 required", {"term": t_fmt(term)})
+                    rep.finding("P6", f"{fq}:tables:{len(insts)}", f"{where}: the result combines {len(insts)} table-line parses, exactly 1 required (the delivered cost is then not the cost column of the class's line)", {"term": t_fmt(term)})
                     bad = True
                 if not bad:
                     rep.ok("P6", 1, nontrivial=(fq, pi), sample=f"{f.qualname} path #{pi}: one table parse, side layers single-qubit: {t_fmt(term)[:200]}")
+
+
+def class_id_symbols(flow, fq):
+    """symbols used as class id (third argument of a stabilizer-table accessor call) on any path of fq"""
+    out = set()
+    for r in flow.paths(fq):
+        reads = [ev for ev in r.events if ev[0] == "read-file"]
+        for ev in r.events:
+            if ev[0] == "call" and len(ev[2]) >= 3 and any(rd[3] == ev[1] for rd in reads):
+                out.add(vkey(ev[2][2]))
+    return out
+
+
+def _guarded_by_class_zero(flow, fq, r):
+    ids = class_id_symbols(flow, fq)
+    for k, val in r.decisions.items():
+        if isinstance(k, tuple) and len(k) == 2 and k[0] == "truth" and isinstance(k[1], tuple) and k[1] and k[1][0] == "cmpEq" and val is True:
+            a, b = k[1][1], k[1][2]
+            if (a in ids and b == ("const", "int", 0)) or (b in ids and a == ("const", "int", 0)):
+                return True
+    return False
 
 
 # ---------------------------------------------------------------------------------------------
